@@ -2,7 +2,9 @@
 
 spec/BV.tla (bit-vectors on limbs, self-checked against definitions on the naturals), spec/BitsObj.tla
 (the Bits object: outcomes every operator may have, state machine over _nbits/_uint/_next),
-spec/BitsTable.tla (case tables), spec/BitsObjTrace.tla (trace validation).
+spec/BitsHeap.tla (object identity: a heap of objects; every operation returning a Bits value returns a NEW
+object, a mutator changes its own object only), spec/BitsTable.tla (case tables), spec/BitsObjTrace.tla
+(trace validation over several live objects).
   1. BV self check: TLC compares every limb operator with its one-line definition on naturals for all
      operands of widths 1..5 (thorough 6) with 2-, 3- and 15-bit limbs; wide algebraic identities.
   2. spec -> code, exhaustive: TLC computes, from BitsObj, the admitted outcomes of every
@@ -12,17 +14,36 @@ spec/BitsTable.tla (case tables), spec/BitsObjTrace.tla (trace validation).
      Every row is executed on the real class through Bits(n, v), the predefined BitsN and mk_bits(n).
      The BitsObj state machine (New/Assign/NbAssign/Flip) is model-checked for widths 1..2 (3) and every
      transition of its state graph is replayed.
+     Object identity: BitsHeap (2 variables, width 1; thorough widths 1..2) is model-checked (Frame,
+     ErrorsChangeNothing, ResultIsOutcome, NatSemantics = results equal the definition on the naturals) and
+     its COMPLETE state graph is covered by one continuous walk on real objects -- every object being the very
+     object the real operation returned -- that takes every transition (all 16 operators between objects and
+     with ints, ~x, clone, deepcopy, Bits(n, x), x[i], x[lo:hi], concat, zext/sext/trunc, @=, <<=, _flip,
+     x[i] = v, x[lo:hi] = v) at least once; all objects are compared after every call and the returned object
+     is compared by identity with every live object.  `-simulate` behaviours of larger heaps (3-4 variables,
+     widths up to 4) are replayed the same way.
   3. code -> spec: seeded random operation sequences on real objects at widths
      {1,2,7,8,15,16,17,31,32,33,63,64,65,127,128,255,256,511,512,1022,1023}, boundary-biased operands;
      every call (operands as limbs, result or exception) and the object state after it is validated by
-     TLC against BitsObj/BV.
-  4. canaries: corrupted tables / traces / expected states must be rejected.
+     TLC against BitsObj/BV.  A second family of sequences keeps up to 5 LIVE objects that are results of
+     earlier calls (arithmetic and comparison results, slices, clone / deepcopy / Bits(n, x), concat / zext /
+     sext / trunc results, `x op= y`), modifies them in place (@=, <<= + _flip, bit and slice assignment),
+     uses them as operands and re-runs earlier operations; BitsObjTrace validates every result AND the
+     logged states of ALL live objects after every call (clauses result-aliases-live-object,
+     changed-another-object, post-state-mismatch besides the value clauses); constructor events use
+     mk_bits / BitsN of arbitrary widths 1..1023.
+  4. canaries: corrupted tables / traces / expected states / heaps must be rejected (heap canaries with the
+     exact clause).
 
 NOTE: exhaustive for widths <= 4 (quick) / 5 (thorough); widths up to 1023 are sampled. The exception
 class is not constrained (the statement says "an error"). // and % by zero, reflected shifts
 (`int << Bits`) and _flip() without a pending value are outside the statement (any outcome admitted);
-a shift amount of another width may raise or give the left-operand-width result. Trusted base: TLC, the
-JSON encodings of harness/bitsobj_lib.py, Python's own int for transporting values.
+a shift amount of another width may raise or give the left-operand-width result. "Returns the
+mathematically defined value" is read over whole histories: as Bits objects are mutable in place, every
+operation returning a Bits value must return a new object and `x op= y` is the pure operator plus
+rebinding (Bits defines no in-place arithmetic); aliasing created by plain Python assignment (`y = x`) is
+of course not modelled. Trusted base: TLC, the JSON encodings of harness/bitsobj_lib.py, Python's own int
+for transporting values, Python `is` for object identity.
 """
 import common
 import bitsobj_lib as L
